@@ -418,7 +418,24 @@ class _Generator(Generator):
             ''
         ]
 
-        decode_lines = [
+        if type_.additions_index_to_member is not None:
+            # Extension bit. Only the root alternatives are
+            # supported, as for SEQUENCE.
+            encode_lines = [
+                'encoder_append_bool(encoder_p, false);'
+            ] + encode_lines
+            extension_decode_lines = [
+                'if (decoder_read_bool(decoder_p)) {',
+                '    decoder_abort(decoder_p, EBADCHOICE);',
+                '',
+                '    return;',
+                '}',
+                ''
+            ]
+        else:
+            extension_decode_lines = []
+
+        decode_lines = extension_decode_lines + [
             '{} = ({})decoder_read_non_negative_binary_integer(decoder_p, {});'.format(
                 unique_choice,
                 type_name,
